@@ -32,7 +32,8 @@
    (the semantics does not mention names, metadata, shapes, opset imports: frame-checked: term before = term after). *)
 From Coq Require Import ZArith NArith List Bool Lia.
 From IRV Require Import Base.Exn Gen.C05Gen C05.Model C05.Proofs C05.Proofs2 C05.Proofs3 C05.Proofs4 C05.Proofs5 C05.Proofs6
-     C05.Proofs7 C05.Proofs8 C05.Proofs9 C05.Proofs10 C05.Proofs11 C05.Proofs12 C05.Proofs13.
+     C05.Proofs7 C05.Proofs8 C05.Proofs9 C05.Proofs10 C05.Proofs11 C05.Proofs12 C05.Proofs13 C05.Proofs14 C05.Proofs15
+     C05.Proofs16 C05.Inline C05.InlineCert C05.InlinePass C05.Proofs17.
 Import ListNotations.
 Open Scope N_scope.
 
@@ -219,6 +220,86 @@ Theorem C05_reorder_preserves :
 Proof. intros T a tv i H1 H2 H3 m m' HW HR. apply (reorder_computes T a tv i H1 H2 H3 m m' HW). apply reorder_modelb_sound. exact HR. Qed.
 Print Assumptions C05_reorder_preserves.
 
+(* RemoveUnusedFunctionsPass.  remove_unused_funcs_checked = the implementation's rule (drop the functions not reachable
+   from the main graph) guarded by the executable closedness certificate Model.drop_closedb; the structural
+   correspondence compares this guarded function with the implementation on every run. *)
+Theorem C05_remove_unused_functions_preserves :
+  forall (T : Type) (absent : T) tensor_val interp,
+    (forall op attrs subs subs' ins k r, Forall2 (sub_le T) subs subs' -> interp op attrs subs ins k = Some r -> interp op attrs subs' ins k = Some r) ->
+    (forall op attrs subs x, is_identity_op op = true -> interp op attrs subs [x] 1%nat = Some [x]) ->
+    (forall op attrs subs ins k, interp op attrs subs (ins ++ [absent]) k = interp op attrs subs ins k) ->
+    forall fuel m, WF m -> NoOpFunc m ->
+      (forall env r, env_ok T (formal_of m) env -> computes absent tensor_val interp m env r ->
+                     computes absent tensor_val interp (remove_unused_funcs_checked fuel m) env r)
+      /\ WF (remove_unused_funcs_checked fuel m) /\ NoOpFunc (remove_unused_funcs_checked fuel m)
+      /\ m_main (remove_unused_funcs_checked fuel m) = m_main m.
+Proof.
+  intros T a tv i H1 H2 H3 fuel m HW HN. split; [|split; [|split]].
+  - apply (rmfunc_checked_computes T a tv i H1 H2 H3 fuel m HW).
+  - apply rmfunc_checked_WF; exact HW.
+  - apply rmfunc_checked_NoOpFunc; exact HN.
+  - apply rmfunc_checked_main.
+Qed.
+Print Assumptions C05_remove_unused_functions_preserves.
+
+(* InlinePass, the semantic core (Proofs15): whenever the relation InlineSim holds between a model and the model with ONE
+   call replaced by a copy of the callee's body (formals bound to the arguments / omitted, attribute parameters resolved
+   through the call's attributes and the defaults, subgraphs copied, results renamed or passed through an Identity), every
+   value of the old model has the same denotation in the new one, with fuel phi f = f*f + 2f. *)
+Theorem C05_inline_simulation :
+  forall (T : Type) (absent : T) tensor_val interp,
+    (forall op attrs subs subs' ins k r, Forall2 (sub_le T) subs subs' -> interp op attrs subs ins k = Some r -> interp op attrs subs' ins k = Some r) ->
+    (forall op attrs subs x, is_identity_op op = true -> interp op attrs subs [x] 1%nat = Some [x]) ->
+    (forall op attrs attrs' subs ins k,
+      Forall2 (fun x y => fst x = fst y /\ (snd x = snd y \/ (is_graph_attr (snd x) = true /\ is_graph_attr (snd y) = true
+                                                              /\ length (attr_graphs [x]) = length (attr_graphs [y])))) attrs attrs' ->
+      interp op attrs subs ins k = interp op attrs' subs ins k) ->
+    forall m st fv, WF m -> NoOpFunc m -> inline_certb m st fv = true ->
+      (forall env r, env_ok T (formal_of m) env -> computes absent tensor_val interp m env r -> computes absent tensor_val interp (is_m st) env r)
+      /\ WF (is_m st) /\ NoOpFunc (is_m st) /\ noninit_inputs (is_m st) = noninit_inputs m
+      /\ length (g_outs (m_main (is_m st))) = length (g_outs (m_main m)).
+Proof.
+  intros T a tv i H1 H2 H7 m st fv HW HN Hc. split.
+  - apply (inline_step_computes T a tv i H1 H2 H7 m st fv HW HN Hc).
+  - destruct (inline_step_valid m st fv HW HN Hc) as [A [B [C [D _]]]]. auto.
+Qed.
+Print Assumptions C05_inline_simulation.
+
+(* InlinePass, the whole pass (call sites in the main graph and its subgraphs, nested calls — the copied calls are
+   revisited —, attribute parameters and defaults, final deletion of the inlined functions).  inline_pass_c = the
+   executable inliner of C05/Inline.v in which every step / the final deletion is applied only with its executable
+   certificate (InlineCert.inline_certb / Model.drop_closedb / Proofs18.live_agreeb); the structural correspondence compares
+   THIS function with the implementation's result on every run (a rejected certificate would show as a mismatch). *)
+Theorem C05_inline_preserves :
+  forall (T : Type) (absent : T) tensor_val interp,
+    (forall op attrs subs subs' ins k r, Forall2 (sub_le T) subs subs' -> interp op attrs subs ins k = Some r -> interp op attrs subs' ins k = Some r) ->
+    (forall op attrs subs x, is_identity_op op = true -> interp op attrs subs [x] 1%nat = Some [x]) ->
+    (forall op attrs subs ins k, interp op attrs subs (ins ++ [absent]) k = interp op attrs subs ins k) ->
+    (forall op attrs attrs' subs ins k,
+      Forall2 (fun x y => fst x = fst y /\ (snd x = snd y \/ (is_graph_attr (snd x) = true /\ is_graph_attr (snd y) = true
+                                                              /\ length (attr_graphs [x]) = length (attr_graphs [y])))) attrs attrs' ->
+      interp op attrs subs ins k = interp op attrs' subs ins k) ->
+    forall fuel m fv fg, WF m -> NoOpFunc m ->
+      let m' := inline_pass_c fuel m fv fg in
+      (forall env r, env_ok T (fun v => In v (noninit_inputs m)) env -> computes absent tensor_val interp m env r -> computes absent tensor_val interp m' env r)
+      /\ WF m' /\ NoOpFunc m' /\ noninit_inputs m' = noninit_inputs m
+      /\ length (g_outs (m_main m')) = length (g_outs (m_main m)).
+Proof.
+  intros T a tv i H1 H2 H3 H7 fuel m fv fg HW HN.
+  destruct (inline_pass_c_good T a tv i H1 H2 H3 H7 fuel m fv fg HW HN) as [G1 G2 G3 G4 G5]. cbv zeta. auto.
+Qed.
+Print Assumptions C05_inline_preserves.
+
+(* NameFix / ClearMetadataAndDocString / ShapeInference / RemoveUnusedOpsets: names, doc strings, metadata, value_info and
+   the opset table are an opaque annotation next to the term; `computes` ignores it, so a pass that leaves the term
+   unchanged (checked on every run: term before = term after) preserves what the model computes. *)
+Theorem C05_frame_passes_preserve :
+  forall (T Ann : Type) (absent : T) tensor_val interp (P : amodel Ann -> amodel Ann),
+    (forall am, fst (P am) = fst am) ->
+    forall am env r, computes_a absent tensor_val interp am env r <-> computes_a absent tensor_val interp (P am) env r.
+Proof. intros. apply frame_pass_preserves. assumption. Qed.
+Print Assumptions C05_frame_passes_preserve.
+
 (* ---- signatures: the non-initializer inputs (identities, order) are kept *)
 Theorem C05_passes_signature :
   (forall fuel m, noninit_inputs (identity_elim fuel m) = noninit_inputs m)
@@ -240,7 +321,8 @@ Proof.
 Qed.
 Print Assumptions C05_passes_signature.
 
-(* ---- composition over all proved passes (Proofs12: pass, apply_pass, extra, seq_ok, Refines, Inv) *)
+(* ---- composition over all thirteen modelled passes, InlinePass and RemoveUnusedFunctionsPass included
+   (Proofs12: pass, apply_pass, extra, seq_ok, Refines, Inv) *)
 Theorem C05_sequence :
   forall (T : Type) (absent : T) tensor_val interp,
     (forall op attrs subs subs' ins k r, Forall2 (sub_le T) subs subs' -> interp op attrs subs ins k = Some r -> interp op attrs subs' ins k = Some r) ->
@@ -254,10 +336,14 @@ Theorem C05_sequence :
     forall tbl,
     (forall op attrs aenv subs ins k,
         interp op (resolve aenv (add_attrs attrs (op_defaults tbl op))) subs ins k = interp op (resolve aenv attrs) subs ins k) ->
+    (forall op attrs attrs' subs ins k,
+      Forall2 (fun x y => fst x = fst y /\ (snd x = snd y \/ (is_graph_attr (snd x) = true /\ is_graph_attr (snd y) = true
+                                                              /\ length (attr_graphs [x]) = length (attr_graphs [y])))) attrs attrs' ->
+      interp op attrs subs ins k = interp op attrs' subs ins k) ->
     forall ps m, Inv m -> seq_ok other tbl ps m ->
     Inv (fold_left (apply_pass other tbl) ps m)
     /\ Refines T absent tensor_val interp m (fold_left (apply_pass other tbl) ps m).
-Proof. intros T a tv i H1 H2 H3 H4 other H5 tbl H6 ps m HI Hok. exact (sequence_all T a tv i H1 H2 H3 H4 other H5 tbl H6 ps m HI Hok). Qed.
+Proof. intros T a tv i H1 H2 H3 H4 other H5 tbl H6 H7 ps m HI Hok. exact (sequence_all T a tv i H1 H2 H3 H4 other H5 tbl H6 H7 ps m HI Hok). Qed.
 Print Assumptions C05_sequence.
 
 (* 0f568df: the former witness (Identity of an outer-scope value as a subgraph output) is kept: outputs stay local *)
